@@ -299,7 +299,7 @@ def _tailify(stmts: list[ast.stmt], mk) -> list[ast.stmt] | None:
     """Rewrite every `return X` of a statement list into `mk(X)` (an assignment to the caller's target, or an expression
     statement) - possible without changing control flow only when each return is in TAIL position: the last statement of the
     list, or of a branch / try body / handler / with body that is itself the last statement of a tail block.  Returns None
-    when some return is elsewhere (inside a loop, followed by code, in a finally)."""
+    when some return is elsewhere (inside a loop or a branch, followed by code, in a finally)."""
     if not stmts:
         return []
     head, last = stmts[:-1], stmts[-1]
@@ -311,12 +311,9 @@ def _tailify(stmts: list[ast.stmt], mk) -> list[ast.stmt] | None:
     if not any(isinstance(x, ast.Return) for x in ast.walk(last)):
         return list(stmts)
     if isinstance(last, ast.If):
-        b, o = _tailify(last.body, mk), _tailify(last.orelse, mk)
-        if b is None or o is None:
-            return None
-        new = copy.copy(last)
-        new.body, new.orelse = b or [ast.copy_location(ast.Pass(), last)], o
-        return head + [new]
+        # returns in the branches of an `if` are left alone: `if c: return a` + `return b` and its if/else spelling must be
+        # treated alike (false-alarm probe `elseret`), and only the latter is in tail form
+        return None
     if isinstance(last, (ast.With, ast.AsyncWith)):
         b = _tailify(last.body, mk)
         if b is None:
